@@ -60,6 +60,7 @@ fn w_code(s: &[WriteStep]) -> String {
         .map(|x| match x {
             WriteStep::Accept(k) if *k == usize::MAX => "a*".into(),
             WriteStep::Accept(k) => format!("a{k}"),
+            WriteStep::AllBut(k) => format!("b{k}"),
             WriteStep::Pending => "p".into(),
             WriteStep::Zero => "z".into(),
             WriteStep::Err(_) => "e".into(),
@@ -76,6 +77,7 @@ fn parse_w(s: &str) -> Vec<WriteStep> {
             "z" => WriteStep::Zero,
             "e" => WriteStep::Err(INJECTED),
             "a*" => WriteStep::Accept(usize::MAX),
+            b if b.starts_with('b') => WriteStep::AllBut(b[1..].parse().expect("n")),
             a => WriteStep::Accept(a[1..].parse().expect("n")),
         })
         .collect()
@@ -110,21 +112,33 @@ pub struct Case {
     pub wscript: Vec<WriteStep>,
     pub fscript: Vec<CtlStep>,
     pub sscript: Vec<CtlStep>,
+    /// explicit conversion points (before op #i, kind 1 = into_parts/from_parts, 2 = into_map_io, 3 = into_map_codec);
+    /// empty: one point and kind derived from a hash of the case (the enumerated families)
+    pub conv: Vec<(usize, u8)>,
+}
+
+fn conv_code(c: &[(usize, u8)]) -> String {
+    c.iter().map(|(i, k)| format!("{i}:{k}")).collect::<Vec<_>>().join(",")
+}
+
+fn parse_conv(s: &str) -> Vec<(usize, u8)> {
+    s.split(',').filter(|x| !x.is_empty()).map(|x| { let (a, b) = x.split_once(':').expect("i:k"); (a.parse().unwrap(), b.parse().unwrap()) }).collect()
 }
 
 impl Case {
     fn to_json(&self) -> Value {
         json!({"prop": "C14", "codec": if self.lines { "lines" } else { "bytes" }, "ops": ops_code(&self.ops),
-               "write_script": w_code(&self.wscript), "flush_script": c_code(&self.fscript), "shutdown_script": c_code(&self.sscript)})
+               "write_script": w_code(&self.wscript), "flush_script": c_code(&self.fscript), "shutdown_script": c_code(&self.sscript), "conversions": conv_code(&self.conv)})
     }
     fn code(&self) -> String {
         format!(
-            "codec={} ops={} write={} flush={} shutdown={}",
+            "codec={} ops={} write={} flush={} shutdown={} conv={}",
             if self.lines { "lines" } else { "bytes" },
             ops_code(&self.ops),
             w_code(&self.wscript),
             c_code(&self.fscript),
-            c_code(&self.sscript)
+            c_code(&self.sscript),
+            conv_code(&self.conv)
         )
     }
 }
@@ -151,6 +165,9 @@ struct Seen {
     conversions: u64,
     trickle_cases: u64,
     read_half_at_eof: u64,
+    conversions_with_buffered_data: u64,
+    sends_after_pending_close: u64,
+    short_tail_cases: u64,
 }
 
 fn payload(n: usize, tag: u8, lines: bool) -> Vec<u8> {
@@ -196,12 +213,18 @@ where
     let mut may_send = false;
     let mut tag = 0u8;
     let mut closed = false;
+    let mut close_pending_seen = false;
 
     for (at, op) in case.ops.iter().enumerate() {
         let (w, rec) = new_waker(at as u64);
         let mut cx = std::task::Context::from_waker(&w);
-        if at == xform_at && xform_kind != 0 {
+        let explicit = case.conv.iter().find(|(i, _)| *i == at).map(|(_, k)| *k as u64);
+        let xform_now = if case.conv.is_empty() { (at == xform_at && xform_kind != 0).then_some(xform_kind) } else { explicit };
+        if let Some(xform_kind) = xform_now {
             seen.conversions += 1;
+            if !framed.is_write_buf_empty() {
+                seen.conversions_with_buffered_data += 1;
+            }
             framed = match xform_kind {
                 1 => Framed::from_parts(framed.into_parts()),
                 2 => framed.into_map_io(|io| io),
@@ -239,6 +262,9 @@ where
                 }
                 expected.extend_from_slice(&enc);
                 seen.items_sent += 1;
+                if close_pending_seen {
+                    seen.sends_after_pending_close += 1;
+                }
                 None
             }
             Op::Ready => Some(Sink::<I>::poll_ready(Pin::new(&mut framed), &mut cx)),
@@ -277,6 +303,9 @@ where
                 }
                 if *op == Op::Ready {
                     may_send = false;
+                }
+                if *op == Op::Close {
+                    close_pending_seen = true;
                 }
             }
             Poll::Ready(Err(e)) => {
@@ -427,6 +456,7 @@ pub fn run(args: &Args, rep: &mut Report) {
             wscript: parse_w(v["write_script"].as_str().unwrap()),
             fscript: parse_c(v["flush_script"].as_str().unwrap_or("")),
             sscript: parse_c(v["shutdown_script"].as_str().unwrap_or("")),
+            conv: parse_conv(v["conversions"].as_str().unwrap_or("")),
         };
         report(rep, &case, &mut seen);
         rep.rule = "replay of one recorded op sequence + transport script".into();
@@ -468,6 +498,7 @@ pub fn run(args: &Args, rep: &mut Report) {
                     wscript: ws.clone(),
                     fscript: fs.clone(),
                     sscript: ss.clone(),
+                    conv: vec![],
                 };
                 report(rep, &case, &mut seen);
                 if ops.iter().any(|o| matches!(o, Op::Send(_))) {
@@ -482,6 +513,90 @@ pub fn run(args: &Args, rep: &mut Report) {
     rep.max("max_op_sequence_len", oplen as u64);
     rep.max("max_write_script_len", wlen as u64);
 
+    // targeted family 1: a large item leaves a short tail in the write buffer (the transport took all but k bytes, then
+    // Pending), the Framed is rebuilt by each conversion while the tail is buffered, then flushed and closed
+    // targeted family 2: poll_close parks on the transport's shutdown (Pending, 1..2 times), another item is accepted,
+    // and poll_close is polled again: it may report success only with that item written too
+    let mut fam: Vec<Case> = Vec::new();
+    for lines in [false, true] {
+        for size in [2000usize, 9000, 20000] {
+            for tail in [1usize, 300, 1000, 1500] {
+                for kind in 1..=3u8 {
+                    for at in [2usize, 3] {
+                        fam.push(Case {
+                            lines,
+                            ops: vec![Op::Ready, Op::Send(size), Op::Flush, Op::Flush, Op::Ready, Op::Send(3), Op::Flush, Op::Close, Op::Close],
+                            wscript: vec![WriteStep::AllBut(tail), WriteStep::Pending],
+                            fscript: vec![],
+                            sscript: vec![],
+                            conv: vec![(at, kind)],
+                        });
+                        // the same with the buffer filled by several smaller items (no reallocation on the way)
+                        let per = size / 8;
+                        let mut ops = Vec::new();
+                        for _ in 0..8 {
+                            ops.extend([Op::Ready, Op::Send(per)]);
+                        }
+                        let base = ops.len();
+                        ops.extend([Op::Flush, Op::Flush, Op::Ready, Op::Send(3), Op::Flush, Op::Close, Op::Close]);
+                        fam.push(Case {
+                            lines,
+                            ops,
+                            wscript: vec![WriteStep::AllBut(tail), WriteStep::Pending],
+                            fscript: vec![],
+                            sscript: vec![],
+                            conv: vec![(base + at - 2, kind)],
+                        });
+                    }
+                }
+            }
+        }
+        for first in [0usize, 3, 9000] {
+            for second in [3usize, 9000] {
+                for npend in 1..=2usize {
+                    for kind in 0..=3u8 {
+                        let mut ops = vec![Op::Ready];
+                        if first > 0 {
+                            ops.push(Op::Send(first));
+                        }
+                        for _ in 0..npend {
+                            ops.push(Op::Close);
+                        }
+                        let conv_at = ops.len();
+                        ops.extend([Op::Ready, Op::Send(second), Op::Close, Op::Close]);
+                        fam.push(Case {
+                            lines,
+                            ops,
+                            wscript: vec![],
+                            fscript: vec![],
+                            sscript: vec![CtlStep::Pending; npend],
+                            conv: if kind == 0 { vec![(usize::MAX, 1)] } else { vec![(conv_at, kind)] },
+                        });
+                    }
+                }
+            }
+        }
+    }
+    if args.tier == "miri" {
+        // the interpreter is ~10^4 times slower: a thin slice of the two families
+        let mut k = 0usize;
+        fam.retain(|_| {
+            k += 1;
+            k % 29 == 0
+        });
+    }
+    for (i, case) in fam.iter().enumerate() {
+        if !args.mine(i as u64) {
+            continue;
+        }
+        if matches!(case.wscript.first(), Some(WriteStep::AllBut(_))) {
+            seen.short_tail_cases += 1;
+        }
+        report(rep, case, &mut seen);
+        rep.distinct_counted += 1;
+    }
+    rep.add("targeted_family_cases_all_shards", fam.len() as u64);
+
     // random: long op sequences, sizes straddling the marks, long transport scripts
     let mut rng = Rng::new(args.seed ^ 0xC14).fork(args.shard);
     let item_sizes = [0usize, 1, 1023, 1024, 1025, 8191, 8192, 8193, 20000];
@@ -492,6 +607,8 @@ pub fn run(args: &Args, rep: &mut Report) {
         let n = if args.slow() { 4 + rng.usize(12) } else { 4 + rng.usize(197) };
         let mut ops = Vec::new();
         let mut may = false;
+        // one case in four polls close in mid-sequence too (it may park on the transport's shutdown and be resumed later)
+        let mid_close = rng.chance(1, 4);
         for _ in 0..n {
             let r = rng.usize(10);
             let op = if may && r < 6 {
@@ -501,6 +618,9 @@ pub fn run(args: &Args, rep: &mut Report) {
             } else if r < 8 {
                 may = true;
                 Op::Ready
+            } else if r == 9 && mid_close && rng.chance(1, 4) {
+                may = false;
+                Op::Close
             } else {
                 Op::Flush
             };
@@ -527,20 +647,31 @@ pub fn run(args: &Args, rep: &mut Report) {
                 0 if rng.chance(1, 4) => WriteStep::Zero,
                 1 if rng.chance(1, 4) => WriteStep::Err(INJECTED),
                 0..=4 => WriteStep::Pending,
-                5..=9 => WriteStep::Accept(1 + rng.usize(2000)),
+                5 | 6 => WriteStep::AllBut(1 + rng.usize(1500)),
+                7..=9 => WriteStep::Accept(1 + rng.usize(2000)),
                 10..=12 => WriteStep::Accept(*rng.pick(&[1usize, 1023, 1024, 1025, 8191, 8192, 8193])),
                 _ => WriteStep::Accept(usize::MAX),
             })
             .collect()
         };
         let fscript: Vec<CtlStep> = (0..rng.usize(4)).map(|_| if rng.chance(1, 2) { CtlStep::Pending } else { CtlStep::Ok }).collect();
-        let sscript: Vec<CtlStep> = (0..rng.usize(3)).map(|_| if rng.chance(1, 2) { CtlStep::Pending } else { CtlStep::Ok }).collect();
+        let sscript: Vec<CtlStep> = (0..rng.usize(if mid_close { 6 } else { 3 })).map(|_| if rng.chance(1, 2) { CtlStep::Pending } else { CtlStep::Ok }).collect();
+        // half of the cases: conversions before about one op in six (any kind); the others keep the single hash-chosen one
+        let mut conv: Vec<(usize, u8)> = Vec::new();
+        if rng.chance(1, 2) {
+            for i in 0..ops.len() {
+                if rng.chance(1, 6) {
+                    conv.push((i, 1 + rng.usize(3) as u8));
+                }
+            }
+        }
         let case = Case {
             lines: rng.chance(1, 2),
             ops,
             wscript,
             fscript,
             sscript,
+            conv,
         };
         report(rep, &case, &mut seen);
         rep.nontrivial(fnv_str(&case.code()));
@@ -549,13 +680,17 @@ pub fn run(args: &Args, rep: &mut Report) {
         }
     }
 
+    rep.add("obs_conversions_with_buffered_data", seen.conversions_with_buffered_data);
+    rep.add("obs_sends_after_pending_close", seen.sends_after_pending_close);
+    rep.add("obs_short_tail_cases", seen.short_tail_cases);
     rep.exhaustive = true;
     rep.rule = format!(
         "every op sequence of length <= {oplen} over {{poll_ready, start_send(3 bytes), start_send(9000 bytes), poll_flush, poll_close}} that respects the Sink contract (start_send only after a Ready poll_ready) \
          x every transport write script of length <= {wlen} over {{accept all, accept 1, accept 1024, Pending, zero-length, error}} (then accept all) x 4 flush/shutdown behaviours (ok, flush Pending once, shutdown Pending once, flush error), \
          alternating BytesCodec / LinesCodec encoders; after every call: received bytes are a prefix of the accepted encodings, Ok from flush/close implies nothing buffered and transport flushed/shut down after the last byte, \
          poll_ready Ready implies < 8192 buffered and is never Pending below the mark, zero-length write => WriteZero, transport errors keep their kind, Pending only with the transport's Pending and the current waker; \
-         plus random sequences up to 200 ops with item sizes {{0,1,1023,1024,1025,8191,8192,8193,20000,random}} and transport scripts up to 40 steps. \
+         plus two targeted families (a large item of which the transport takes all but 1..1500 bytes, then each Framed conversion with that tail buffered, then flush/close; poll_close parked on a Pending shutdown, another item accepted, poll_close polled again, with and without a conversion in between) \
+         plus random sequences up to 200 ops (a quarter with poll_close in mid-sequence, half with conversions before one op in six, transport steps that take all but a short tail) with item sizes {{0,1,1023,1024,1025,8191,8192,8193,20000,random}} and transport scripts up to 40 steps. \
          Non-trivial: contains at least one accepted item. Enumerated cases are distinct by construction; random ones de-duplicated by hash."
     );
     rep.add("obs_items_accepted", seen.items_sent);
